@@ -13,6 +13,8 @@ import (
 	"strconv"
 	"strings"
 	"sync"
+	"sync/atomic"
+	"time"
 )
 
 // ---- wire tokens ----
@@ -461,6 +463,12 @@ func cmdRun(fl map[string]string) {
 		par = 8
 	}
 	results := make([]*Result, len(hs))
+	histTimeout := 20 * time.Second
+	if d, err := time.ParseDuration(fl["hist-timeout"]); err == nil && d > 0 {
+		histTimeout = d
+	}
+	var hung atomic.Bool
+	var hungCount atomic.Int32
 	var wg sync.WaitGroup
 	sem := make(chan struct{}, par)
 	for i, h := range hs {
@@ -471,7 +479,28 @@ func cmdRun(fl map[string]string) {
 			defer func() { <-sem }()
 			c := mustComp(h.Component)
 			sub := fmt.Sprintf("%s/h%d", scratch, i)
-			res := safeRun(c, h, sub)
+			// watchdog: a history that does not terminate (a loop in the implementation under test) is reported,
+			// its goroutine is abandoned (the process exits after writing the results)
+			if hungCount.Load() >= 3 {
+				// several histories already hang: do not start more (each would burn a core until the time-out)
+				r := &Result{}
+				r.Obs = append(r.Obs, "r !skipped-after-hangs")
+				results[i] = r
+				return
+			}
+			done := make(chan *Result, 1)
+			go func() { done <- safeRun(c, h, sub) }()
+			var res *Result
+			select {
+			case res = <-done:
+			case <-time.After(histTimeout):
+				hung.Store(true)
+				hungCount.Add(1)
+				res = &Result{}
+				res.Obs = append(res.Obs, "r !hang")
+				res.Fails = append(res.Fails, Fail{Property: "*", Step: -1,
+					Msg: fmt.Sprintf("history did not terminate within %s: an operation of the implementation (or the driver) hangs", histTimeout)})
+			}
 			_ = os.RemoveAll(sub)
 			for k := range res.Fails {
 				res.Fails[k].History = h.ID
@@ -552,6 +581,9 @@ func cmdRun(fl map[string]string) {
 		_ = os.WriteFile(fl["stats"], js, 0o644)
 	} else {
 		fmt.Println(string(js))
+	}
+	if hung.Load() {
+		os.Exit(0) // abandon the goroutines that never returned
 	}
 }
 
